@@ -629,4 +629,87 @@ theorem step_refusal_cut {q : Rat} (hq : q = 0 ∨ q = 1/2) {V : Mat Rat} {tgt :
         · simp [hd]
       exact lt_of_lt_of_le h1 h2
 
+theorem mapM_except_error {α β ε : Type} (f : α → Except ε β) :
+    ∀ (l : List α) (e : ε), l.mapM f = .error e → ∃ a ∈ l, f a = .error e
+  | [], e, h => by simp only [List.mapM_nil] at h; cases h
+  | a :: l, e, h => by
+    rw [List.mapM_cons] at h
+    cases hfa : f a with
+    | error e' =>
+      rw [hfa] at h
+      cases h
+      exact ⟨a, List.mem_cons_self, hfa⟩
+    | ok b =>
+      rw [hfa] at h
+      cases hl : l.mapM f with
+      | error e' =>
+        rw [hl] at h
+        cases h
+        obtain ⟨a', ha', hfa'⟩ := mapM_except_error f l e hl
+        exact ⟨a', List.mem_cons_of_mem _ ha', hfa'⟩
+      | ok bs => rw [hl] at h; cases h
+
+theorem haEvaluate_error {div : Nat → Rat} {votes : List Rat} {n : Nat} {e : Err}
+    (h : haEvaluate div votes n = .error e) : e ≠ .votingSystemError := by
+  unfold haEvaluate at h
+  split at h
+  · simp only [Except.error.injEq] at h; rw [← h]; simp
+  · simp at h
+
+theorem partySeats_error {div : Nat → Rat} {V : Mat Rat} {total : Nat} {e : Err}
+    (h : partySeats div V total = .error e) : e ≠ .votingSystemError := by
+  unfold partySeats at h
+  cases hr : haEvaluate div (colTotals V) total with
+  | error e' => rw [hr] at h; simp only [Except.error.injEq] at h; rw [← h]; exact haEvaluate_error hr
+  | ok r =>
+    rw [hr] at h
+    simp only at h
+    split at h
+    · simp only [Except.error.injEq] at h; rw [← h]; simp
+    · simp at h
+
+theorem districtSeats_error {div : Nat → Rat} {V : Mat Rat} {total : Nat} {e : Err}
+    (h : districtSeats div V total = .error e) : e ≠ .votingSystemError := by
+  unfold districtSeats at h
+  cases hr : haEvaluate div (rowTotals V) total with
+  | error e' => rw [hr] at h; simp only [Except.error.injEq] at h; rw [← h]; exact haEvaluate_error hr
+  | ok r =>
+    rw [hr] at h
+    simp only at h
+    split at h
+    · simp only [Except.error.injEq] at h; rw [← h]; simp
+    · simp at h
+
+theorem initialColumn_error {div : Nat → Rat} {V : Mat Rat} {j k : Nat} {e : Err}
+    (h : initialColumn div V j k = .error e) : e ≠ .votingSystemError := by
+  unfold initialColumn at h
+  split at h
+  · simp at h
+  · cases hr : haEvaluate div (colOf V j) k with
+    | error e' => rw [hr] at h; simp only [Except.error.injEq] at h; rw [← h]; exact haEvaluate_error hr
+    | ok r => rw [hr] at h; simp at h
+
+theorem initState_error {div : Nat → Rat} {q : Rat} {V : Mat Rat} {total : Nat} {e : Err}
+    (h : initState div q V total = .error e) : e ≠ .votingSystemError := by
+  unfold initState at h
+  cases hx : initialSolution div V total with
+  | ok x0 => rw [hx] at h; simp at h
+  | error e' =>
+    rw [hx] at h
+    simp only [Except.error.injEq] at h
+    subst h
+    unfold initialSolution at hx
+    cases hps : partySeats div V total with
+    | error e'' => rw [hps] at hx; simp only [Except.error.injEq] at hx; rw [← hx]; exact partySeats_error hps
+    | ok ps =>
+      rw [hps] at hx
+      simp only at hx
+      cases hcols : (List.range (nCols V)).mapM (fun j => initialColumn div V j (ps.getD j 0)) with
+      | ok cols => rw [hcols] at hx; simp at hx
+      | error e'' =>
+        rw [hcols] at hx
+        simp only [Except.error.injEq] at hx
+        obtain ⟨j, _, hj⟩ := mapM_except_error _ _ _ hcols
+        rw [← hx]; exact initialColumn_error hj
+
 end VL.Biprop
